@@ -3,6 +3,7 @@ import Driver.Suites.Blocks
 import Driver.Suites.Parse
 import Driver.Suites.Paths
 import Driver.Suites.Tar
+import Driver.Suites.Remove
 /-! Table of suites known to the driver.  One line per suite (merge=union friendly). -/
 namespace Driver
 def registry : List Suite := [
@@ -10,5 +11,6 @@ def registry : List Suite := [
   Suites.Parse.suite,
   Suites.Paths.suite,
   Suites.Tar.suite,
+  Suites.Remove.suite,
 ]
 end Driver
